@@ -148,7 +148,14 @@ pub fn gen_case(rng: &mut Rng, corpus: &[String]) -> Option<Case01> {
                 }
             })
             .collect();
-        let variant = if rng.chance(1, 4) { first } else { swapped };
+        // ... or one is a proper prefix of the other (`foo`, `foobar`): under
+        // -w / -x the longer one matches lines the shorter one does not
+        let variant = match rng.below(6) {
+            0 => first,
+            1 | 2 => format!("{}{}", first, rng.pick(&["bar", "x", "1", "ab"])),
+            3 if first.chars().count() > 1 && first.is_ascii() => first[..first.len() - 1].to_string(),
+            _ => swapped,
+        };
         if flags.fixed || !patgen::excluded(&variant) {
             let k = patterns.len() - 1;
             patterns[k] = variant;
